@@ -409,7 +409,9 @@ def run(ctx):
             if (c.get("fn") or "").endswith("SeekFrom::Start") and c.get("args"):
                 seeks.add(hirq.render(hirq.strip(c["args"][0])))
         local_fns = {g.path: g for g in mpq.fn_list if g.kind != "Closure" and g.hir}
-        keyx = [dict(x, ln=ln_ or x.get("ln")) for x, ln_ in hirq.inline_local_calls(f.hir["body"], local_fns, lambda n_: n_.get("k") == "bin" and n_["op"] == "^" and "wrapping_add" in hirq.render(n_), depth=1, skip=re.compile(r"::crypto::|::compression::"))]
+        # (the sum may be held in a local first: `let shifted = key.wrapping_add(pos); shifted ^ size`)
+        sums_ = {l["pat"]["name"]: l["init"] for l in hirq.find(f.hir["body"], "let") if l["pat"].get("k") == "bind" and l.get("init") is not None and hirq.strip(l["init"]).get("k") == "mcall" and hirq.strip(l["init"])["m"] == "wrapping_add"}
+        keyx = [dict(hirq.subst(x, sums_) if sums_ else x, ln=ln_ or x.get("ln")) for x, ln_ in hirq.inline_local_calls(f.hir["body"], local_fns, lambda n_: n_.get("k") == "bin" and n_["op"] == "^" and ("wrapping_add" in hirq.render(n_) or any(hirq.strip(o_).get("k") == "path" and (hirq.strip(o_).get("res") or {}).get("local") in sums_ for o_ in (n_["l"], n_["r"]))), depth=1, skip=re.compile(r"::crypto::|::compression::"))]
         if not keyx:
             ctx.bad(R_pos, "%s|no-formula" % path.split("::")[-1], f.where, "no (key + pos) ^ size expression", "FIX_KEY files cannot be decrypted here")
             continue
